@@ -1,23 +1,62 @@
 (* C03  Valued balances are mark-to-market at the latest known price.
-   Specification vocabulary: Spec/ValuationSpec.v (price_on, qty_upto, market_value, mtm_expected,
-   within_bound, missing_price_b).  Model: Model/Pipeline.v valuate_proc, compute_prices_proc.
+   Specification vocabulary: Spec/MarkToMarketSpec.v (cell_value, cell_qty, cell_count, price_value,
+   last_normalized: one cell (account, commodity) of the valued days, in rationals),
+   Spec/PriceDaySpec.v (price_on: the prices in force on day k = normalisation of all declarations
+   up to and including day k, C12), Spec/ValuationSpec.v (the closed form the runtime check
+   evaluates on the binary's output: price_on, qty_upto, market_value, mtm_expected, within_bound,
+   missing_price_b).  Model: Model/Pipeline.v valuate_proc, compute_prices_proc.
 
-   Proved here: the arithmetic core (Abel summation), the exact behaviour of one valuation step
-   (booking-day value, 8-decimal truncation error, oddness), the shape of the revaluation
-   transactions (gain between the account and the income account mirroring its path), and that a
-   missing price makes the stage fail.
-   PARTIAL: the end-to-end bound
+   Proved here (Proofs/ValuationProofs.v, Proofs/MarkToMarket.v):
+   * the arithmetic core (Abel summation), the exact behaviour of one valuation step (booking-day
+     value, oddness), the error of one Multiply as a rational: |multiply a b - a*b| <= 10^-8, = 0
+     when the product has at most 8 decimals;
+   * END TO END over days, C03_mark_to_market_stage / C03_mark_to_market: for the Valuate stage
+     run from its initial state over any list of days (and for ComputePrices followed by
+     Valuate), every asset/liability account a and commodity c <> V:
+         | posted value of (a,c)  -  quantity(a,c,T) * price(c,T) |  <=  n_steps * 10^-8
+     posted value = sum of the values the stage put on the cell's postings (bookings at their
+     booking day + the daily "Adjust value" revaluations), quantity = exact sum of the booked
+     quantities, price = the normalised price of the last day (= price_on of the declarations up
+     to the last day; a day without declarations carries the previous prices forward:
+     C03_prices_carried_forward), n_steps = number of the cell's postings after the stage = the
+     number of Multiply calls that contributed (one per booking, one per revaluation); it is at
+     most (bookings of the cell + number of days): C03_mark_to_market_input_bound.
+     C03_mark_to_market_exact: no error at all when quantities have at most kq and prices at most
+     kp decimals, kq + kp <= 8.  C03_held_has_price: a non-zero final quantity has a price (the
+     0 that price_value returns for a missing price is never used).
+     Induction over days with the invariant  V_d - Q_d * p_d = sum of one error per step, in
+     delta form (C03_delta: from any reachable state), which also gives the window
+     (C03_windowed_partial): value posted after the first k days = Q_T p_T - Q_k p_k +- n * 10^-8;
+   * the shape of the revaluation transactions (gain between the account and the Income account
+     mirroring its path, only for open asset/liability positions in a commodity other than V:
+     C03_gain_mirror, C03_only_AL_revalued), accounts that are neither asset/liability nor Income
+     get no revaluation posting at all (C03_other_accounts_not_revalued), and a missing price
+     makes the stage fail (C03_missing_price_fails).
+   Input side conditions of the end-to-end theorems (posting_in_ok): posting accounts are
+   syntactically valid (account_ok: what the parser accepts) and a booking of quantity zero enters
+   the stage with value zero (the builder creates every posting with the zero Value: proved,
+   C03_built_days_in_ok; C03_mark_to_market_balance_prefix is the statement for the days that
+   leave the valuate stage of the balance command's pipeline, with the validity of the posting
+   accounts as the only side condition).
 
-     Theorem C03_mark_to_market : process_days (valuate_proc v) init ds = ROk (s', ds') -> is_AL a -> c <> v ->
-       | posted_value a c ds' - qty_upto a c T * price_on c T | <= n_steps * 10^-8
+   PARTIAL (C03_windowed_partial): DESIGN.md section 7 states the window on the report,
 
-   (induction over days with the invariant |V - Q * p_prev| <= n * 10^-8, using C03_abel and
-   C03_truncation_step) is not yet proved; it is decided on every run by evaluating
-   Spec.ValuationSpec.mtm_row / within_bound on the binary's output and by the byte-exact
-   correspondence of the model. *)
-From Coq Require Import ZArith QArith List Bool.
+     Theorem C03_windowed : is_AL a -> run_balance cfg J = Ok r ->
+       | value_cell r a col - (sum_c Q_T(a,c) * p_T(c) - sum_c Q_s(a,c) * p_s(c)) | <= n_steps * 10^-8
+
+   with T the last journal day <= col, s the last journal day before the window.  Proved is the
+   statement on the days that leave the Valuate stage, per commodity (the sum over c is a finite
+   sum of the per-cell statements).  Not proved: that the cell of the rendered report is the sum of
+   those posted values (Filter drops the days before the window, CloseAccounts adds postings on
+   non-A/L accounts only, Query/Report add exactly (C01/C02/C17)), and that the builder's days
+   carry the journal's declarations (Spec.ValuationSpec.price_on on directives = PriceDaySpec.price_on
+   on days).  Those links are decided on every run by evaluating Spec.ValuationSpec.mtm_row /
+   within_bound on the binary's output and by the byte-exact correspondence of the model. *)
+From Coq Require Import ZArith QArith Qabs List Bool.
 From Knut Require Import Model.Str Model.Dec Model.Account Model.Ledger Model.Price Model.Journal Model.Check Model.Pipeline
-     Proofs.DecProofs Proofs.DecValue Proofs.PairProofs Proofs.ValuationProofs.
+     Spec.WellformedSpec Spec.MarkToMarketSpec Spec.PriceDaySpec
+     Proofs.DecProofs Proofs.DecValue Proofs.PairProofs Proofs.ValuationProofs Proofs.MarkToMarket.
+From Knut Require Model.Cli.
 Import ListNotations.
 
 (* booking values plus revaluations telescope to (last price) * (total quantity) *)
@@ -74,3 +113,184 @@ Theorem C03_gain_mirror : forall v date prev cur pos ts,
                      t_postings t = pair_build (valuation_account_for a) a c dec_nil (multiply (sub cp pp) q)) ts.
 Proof. exact val_adjustments_shape. Qed.
 Print Assumptions C03_gain_mirror.
+
+(* ------------------------------------------------------------------ end to end over days *)
+Open Scope Q_scope.
+
+(* one Multiply, as rationals: cut toward zero by at most 10^-8 *)
+Theorem C03_multiply_error : forall a b, Qabs (dvalue (multiply a b) - dvalue a * dvalue b) <= 1 # 100000000.
+Proof. exact merr_bound. Qed.
+Print Assumptions C03_multiply_error.
+
+(* the Valuate stage from its initial state over any list of days: posted value of an
+   asset/liability cell = quantity * price of the last day, up to 10^-8 per contributing step *)
+Theorem C03_mark_to_market_stage : forall v a c ds s' ds',
+  account_ok a = true -> is_AL a = true -> c <> v ->
+  Forall posting_in_ok (days_postings ds) ->
+  process_days (valuate_proc v) val_init ds = ROk (s', ds') ->
+  Qabs (cell_value a c (days_postings ds')
+        - cell_qty a c (days_postings ds) * price_value (last_normalized None ds) c)
+    <= inject_Z (cell_count a c (days_postings ds')) * (1 # 100000000).
+Proof. exact mark_to_market_stage. Qed.
+Print Assumptions C03_mark_to_market_stage.
+
+(* ComputePrices then Valuate: the price is price_on of the declarations up to the last day *)
+Theorem C03_mark_to_market : forall v a c ds0 s1 ds1 s2 ds2,
+  account_ok a = true -> is_AL a = true -> c <> v -> ds0 <> [] ->
+  Forall posting_in_ok (days_postings ds0) ->
+  process_days (compute_prices_proc v) (mkCp [] None) ds0 = ROk (s1, ds1) ->
+  process_days (valuate_proc v) val_init ds1 = ROk (s2, ds2) ->
+  Qabs (cell_value a c (days_postings ds2)
+        - cell_qty a c (days_postings ds0) * price_value (price_on v ds0 (pred (length ds0))) c)
+    <= inject_Z (cell_count a c (days_postings ds2)) * (1 # 100000000).
+Proof. exact mark_to_market_pipeline. Qed.
+Print Assumptions C03_mark_to_market.
+
+(* the prefix of the balance command (Model/Cli.v balance_report: load, touch for --close, check,
+   prices, valuate): the value-zero side condition is discharged by the builder; what remains is
+   the syntactic validity of the posting accounts *)
+Theorem C03_mark_to_market_balance_prefix : forall l dl dates touch repaired v a c s0 days0 s1 ds1 s2 ds2,
+  parse_directives l = MOk dl ->
+  let days := b_days (if touch : bool then builder_touch (builder_of dl) dates else builder_of dl) in
+  Forall (fun p => account_ok (p_acc p) = true) (days_postings days) ->
+  account_ok a = true -> is_AL a = true -> c <> v -> days <> [] ->
+  process_days (Cli.check_proc_current repaired) check_init days = ROk (s0, days0) ->
+  process_days (compute_prices_proc v) (mkCp [] None) days0 = ROk (s1, ds1) ->
+  process_days (valuate_proc v) (mkVal None None []) ds1 = ROk (s2, ds2) ->
+  Qabs (cell_value a c (days_postings ds2)
+        - cell_qty a c (days_postings days) * price_value (price_on v days (pred (length days))) c)
+    <= inject_Z (cell_count a c (days_postings ds2)) * (1 # 100000000).
+Proof. exact mark_to_market_balance_prefix. Qed.
+Print Assumptions C03_mark_to_market_balance_prefix.
+
+(* every journal the model builds satisfies the value-zero side condition *)
+Theorem C03_built_days_in_ok : forall l dl dates touch,
+  parse_directives l = MOk dl ->
+  let days := b_days (if touch : bool then builder_touch (builder_of dl) dates else builder_of dl) in
+  Forall (fun p => account_ok (p_acc p) = true) (days_postings days) ->
+  Forall posting_in_ok (days_postings days).
+Proof. exact built_days_in_ok. Qed.
+Print Assumptions C03_built_days_in_ok.
+
+(* the same with a step count read off the input: at most one revaluation per day for a cell *)
+Theorem C03_mark_to_market_input_bound : forall v a c ds s' ds',
+  account_ok a = true -> is_AL a = true -> c <> v ->
+  Forall posting_in_ok (days_postings ds) ->
+  process_days (valuate_proc v) val_init ds = ROk (s', ds') ->
+  Qabs (cell_value a c (days_postings ds')
+        - cell_qty a c (days_postings ds) * price_value (last_normalized None ds) c)
+    <= inject_Z (cell_count a c (days_postings ds) + Z.of_nat (length ds)) * (1 # 100000000).
+Proof. exact mark_to_market_stage_input_bound. Qed.
+Print Assumptions C03_mark_to_market_input_bound.
+
+(* no truncation at all when no product has more than 8 decimals *)
+Theorem C03_mark_to_market_exact : forall v a c kq kp ds s' ds',
+  account_ok a = true -> is_AL a = true -> c <> v ->
+  (0 <= kq)%Z -> (kq + kp <= 8)%Z ->
+  Forall posting_in_ok (days_postings ds) ->
+  Forall (fun p => cellb a c p = true -> (- kq <= ex (p_qty p))%Z) (days_postings ds) ->
+  Forall (fun d => forall pr, np_price_opt (d_normalized d) c = Some pr -> (- kp <= ex pr)%Z) ds ->
+  process_days (valuate_proc v) val_init ds = ROk (s', ds') ->
+  cell_value a c (days_postings ds') == cell_qty a c (days_postings ds) * price_value (last_normalized None ds) c.
+Proof. exact mark_to_market_exact. Qed.
+Print Assumptions C03_mark_to_market_exact.
+
+(* a position that is not zero at the end has a price on the last day *)
+Theorem C03_held_has_price : forall v a c ds s' ds',
+  account_ok a = true -> is_AL a = true -> c <> v ->
+  Forall posting_in_ok (days_postings ds) ->
+  process_days (valuate_proc v) val_init ds = ROk (s', ds') ->
+  ~ cell_qty a c (days_postings ds) == 0 ->
+  exists pr, np_price_opt (last_normalized None ds) c = Some pr.
+Proof. exact held_has_price. Qed.
+Print Assumptions C03_held_has_price.
+
+(* the invariant of the induction over days, from any state with a well-formed position map
+   (sorted keys, entries keyed by their own account and commodity, asset/liability accounts only:
+   every state the stage reaches, C03_positions_stay_wellformed) *)
+Theorem C03_delta : forall v a c ds s s' ds',
+  account_ok a = true -> is_AL a = true -> c <> v ->
+  Forall posting_in_ok (days_postings ds) ->
+  entries_ok (v_qty s) ->
+  process_days (valuate_proc v) s ds = ROk (s', ds') ->
+  v_prev s' = last_normalized (v_prev s) ds /\ entries_ok (v_qty s') /\
+  posq a c (v_qty s') == posq a c (v_qty s) + cell_qty a c (days_postings ds) /\
+  Qabs (cell_value a c (days_postings ds')
+        - (posq a c (v_qty s') * price_value (v_prev s') c - posq a c (v_qty s) * price_value (v_prev s) c))
+    <= inject_Z (cell_count a c (days_postings ds')) * (1 # 100000000).
+Proof.
+  intros v a c ds s s' ds' Ha HAL Hcv Hin Hs H.
+  destruct (mtm_delta v a c ds s s' ds' Ha HAL Hcv Hin (proj1 (entries_ok_good a c _) Hs) H) as (B1 & B2 & B3 & B4).
+  split; [exact B1|]. split; [exact (proj2 (entries_ok_good a c _) B2)|]. split; [exact B3|exact B4].
+Qed.
+Print Assumptions C03_delta.
+
+Theorem C03_positions_stay_wellformed : forall v ds s s' ds',
+  Forall posting_in_ok (days_postings ds) -> entries_ok (v_qty s) ->
+  process_days (valuate_proc v) s ds = ROk (s', ds') -> entries_ok (v_qty s').
+Proof. exact days_entries_ok. Qed.
+Print Assumptions C03_positions_stay_wellformed.
+
+(* the window: the value posted on the days after the first |ds1| is the change of the market
+   value between the end of ds1 and the end of the run.  (Full statement on the report's cells:
+   see the header; this is its part on the days leaving the stage.) *)
+Theorem C03_windowed_partial : forall v a c ds1 ds2 s' out,
+  account_ok a = true -> is_AL a = true -> c <> v ->
+  Forall posting_in_ok (days_postings (ds1 ++ ds2)) ->
+  process_days (valuate_proc v) val_init (ds1 ++ ds2) = ROk (s', out) ->
+  Qabs (cell_value a c (days_postings (skipn (length ds1) out))
+        - (cell_qty a c (days_postings (ds1 ++ ds2)) * price_value (last_normalized None (ds1 ++ ds2)) c
+           - cell_qty a c (days_postings ds1) * price_value (last_normalized None ds1) c))
+    <= inject_Z (cell_count a c (days_postings (skipn (length ds1) out))) * (1 # 100000000).
+Proof. exact mark_to_market_window. Qed.
+Print Assumptions C03_windowed_partial.
+
+(* prices are carried forward: a day without declarations has the prices of the day before *)
+Theorem C03_prices_carried_forward : forall v ds s' ds' k d d1 d2,
+  process_days (compute_prices_proc v) (mkCp [] None) ds = ROk (s', ds') ->
+  nth_error ds (S k) = Some d -> d_prices d = [] ->
+  nth_error ds' k = Some d1 -> nth_error ds' (S k) = Some d2 ->
+  d_normalized d2 = d_normalized d1.
+Proof. exact normalized_carried_forward. Qed.
+Print Assumptions C03_prices_carried_forward.
+
+(* only open asset/liability positions in a commodity other than V are revalued *)
+Theorem C03_only_AL_revalued : forall v date prev cur pos ts,
+  val_adjustments v date prev cur pos = ROk ts ->
+  Forall (fun t => exists k a c q gain, In (k, (a, c, q)) pos /\
+                   is_AL a = true /\ str_eqb c v = false /\ is_zero q = false /\
+                   t_postings t = pair_build (valuation_account_for a) a c dec_nil gain) ts.
+Proof. exact val_adjustments_only_AL. Qed.
+Print Assumptions C03_only_AL_revalued.
+
+(* an account that is neither asset/liability nor Income (expenses, equity) never receives a
+   revaluation posting: the stage leaves the number of postings of each of its cells unchanged,
+   and each keeps the value of its booking day (C03_flow_at_booking_day) *)
+Theorem C03_other_accounts_not_revalued : forall v b cb,
+  account_ok b = true -> is_AL b = false -> acc_type b <> Some Income ->
+  forall ds s s' ds',
+  Forall posting_in_ok (days_postings ds) -> entries_ok (v_qty s) ->
+  process_days (valuate_proc v) s ds = ROk (s', ds') ->
+  cell_count b cb (days_postings ds') = cell_count b cb (days_postings ds).
+Proof. exact other_accounts_not_revalued. Qed.
+Print Assumptions C03_other_accounts_not_revalued.
+
+(* the hypotheses are satisfiable, and the bound is not vacuous: two price changes (days 2 and 4)
+   while the position of 1.5 A (+ 0.3 A on day 3 at the carried-forward price) is open.
+   Posted 5.99999998 = 1.85185183 + 1.14814818 + 0.60000000 + 2.39999997 (2 bookings, 2
+   revaluations); exact 1.8 * 3.33333333 = 5.999999994; difference 1.4e-8 <= 4e-8. *)
+Example C03_example_two_price_changes :
+  account_ok ex_a = true /\ is_AL ex_a = true /\ ex_c <> ex_v /\
+  Forall posting_in_ok (days_postings ex_days) /\
+  exists s1 ds1 s2 ds2,
+    process_days (compute_prices_proc ex_v) (mkCp [] None) ex_days = ROk (s1, ds1) /\
+    process_days (valuate_proc ex_v) val_init ds1 = ROk (s2, ds2) /\
+    cell_count ex_a ex_c (days_postings ds2) = 4%Z /\
+    Qred (cell_value ex_a ex_c (days_postings ds2)) = 299999999 # 50000000 /\
+    Qred (cell_qty ex_a ex_c (days_postings ex_days)) = 9 # 5 /\
+    Qred (price_value (price_on ex_v ex_days 3) ex_c) = 333333333 # 100000000.
+Proof.
+  split; [reflexivity|]. split; [reflexivity|]. split; [discriminate|]. split; [exact ex_days_in_ok|].
+  do 4 eexists. split; [vm_compute; reflexivity|]. split; [vm_compute; reflexivity|].
+  repeat split; vm_compute; reflexivity.
+Qed.
